@@ -52,6 +52,9 @@ pub struct C04Case
     /// one more run whose standard output cannot be written: 0 none, 1 /dev/full, 2 pipe without reader, 3 closed descriptor
     #[serde(default)]
     pub broken_stdout: u8,
+    /// an extra source file with this many plain statements lacking references (0 = none)
+    #[serde(default)]
+    pub bulk: u16,
 }
 
 pub fn strategy() -> BoxedStrategy<C04Case>
@@ -83,8 +86,8 @@ pub fn strategy() -> BoxedStrategy<C04Case>
         p_preamble: 10,
         ..StmtParams::default()
     };
-    (model_tree(StructSel::AnyOrOmitted, p, 4, 6, true), lock, cache, ext, breakage, plan, any::<bool>(), prop_oneof![4 => Just(false), 1 => Just(true)], prop_oneof![5 => Just(false), 1 => Just(true)], prop_oneof![6 => Just(0u8), 1 => Just(1u8), 1 => Just(2u8), 1 => Just(3u8)])
-        .prop_map(|(mut tree, lock, cache, ext, breakage, plan, extras, pre_edited, missing_tmpdir, broken_stdout)| {
+    (model_tree(StructSel::AnyOrOmitted, p, 4, 6, true), lock, cache, ext, breakage, plan, any::<bool>(), prop_oneof![4 => Just(false), 1 => Just(true)], prop_oneof![5 => Just(false), 1 => Just(true)], prop_oneof![6 => Just(0u8), 1 => Just(1u8), 1 => Just(2u8), 1 => Just(3u8)], prop_oneof![24 => Just(0u16), 1 => proptest::sample::select(&[255u16, 256, 257, 1000, 1001, 1500, 4097][..])])
+        .prop_map(|(mut tree, lock, cache, ext, breakage, plan, extras, pre_edited, missing_tmpdir, broken_stdout, bulk)| {
             tree.lock = lock;
             tree.cfg.use_cache = cache;
             tree.cfg.extensions = ext;
@@ -96,6 +99,7 @@ pub fn strategy() -> BoxedStrategy<C04Case>
                 pre_edited,
                 missing_tmpdir,
                 broken_stdout,
+                bulk,
             }
         })
         .boxed()
@@ -121,6 +125,17 @@ pub fn check(case: &C04Case) -> CaseOutcome
     if case.breakage == Breakage::MissingConfig
     {
         tree.remove("Breadlog.yaml");
+    }
+    if case.bulk > 0
+    {
+        let mut t = String::from("fn bulk() {\n");
+        for i in 0..case.bulk
+        {
+            t.push_str(&format!("    info!(\"bulk statement {}\");\n", i));
+        }
+        t.push_str("}\n");
+        tree.insert("src/zz_bulk.rs".into(), Node::File(t.into_bytes()));
+        o.class(&format!("bulk-file-{}-statements", case.bulk));
     }
     // an ordinary Rust project around it
     tree.insert("Cargo.toml".into(), Node::File(b"[package]\nname = \"demo\"\nversion = \"0.1.0\"\nedition = \"2021\"\n".to_vec()));
@@ -385,7 +400,7 @@ pub fn run(env: &Env, rec: &Recorder) -> (String, Vec<&'static str>)
 {
     pbt(env, rec, "check-mode", env.cases(2500, 40_000), &strategy, &check);
     (
-        "modelled trees (1-4 files, decoys, directives) x configuration (macros, structured on/off/omitted, use_cache on/off/omitted, extensions) x lock (absent, valid, corrupt, empty, negative) x breakage (none, no files in scope, missing source dir, source dir is a file, source dir is an in-scope source file, invalid YAML, missing config; always inside an ordinary project with Cargo.toml and .gitignore) x extra entries (non-source files, symlinks to file and directory, empty dir, stale scratch files of different ages in TMPDIR and in the project, file outside the project, TMPDIR pointing at a directory that does not exist) x fault plan (none, SIGTERM/SIGINT at a generated operation, injected read-side I/O failure) x standard output (captured; one case in three also with /dev/full, a pipe without reader, or a closed descriptor - the run may then die, but not modify anything); 20 % of trees pre-edited so nothing is missing. Oracle: (1) snapshot of the whole sandbox (project, TMPDIR, cwd, outside) identical incl. mtime and inode; (2) the libc-level trace contains no mutating call on any path; (3) for a 4 % sample the same run under strace -f shows no mutating file system call either (validates the interposer's view). Non-trivial = distinct case with a missing reference, a non-default configuration point, a broken configuration or a fault plan".to_string(),
+        "modelled trees (1-4 files, decoys, directives) x configuration (macros, structured on/off/omitted, use_cache on/off/omitted, extensions) x lock (absent, valid, corrupt, empty, negative) x breakage (none, no files in scope, missing source dir, source dir is a file, source dir is an in-scope source file, invalid YAML, missing config; always inside an ordinary project with Cargo.toml and .gitignore) x extra entries (non-source files, symlinks to file and directory, empty dir, stale scratch files of different ages in TMPDIR and in the project, file outside the project, TMPDIR pointing at a directory that does not exist) x fault plan (none, SIGTERM/SIGINT at a generated operation, injected read-side I/O failure) x standard output (captured; one case in three also with /dev/full, a pipe without reader, or a closed descriptor - the run may then die, but not modify anything); 20 % of trees pre-edited so nothing is missing; 4 % of trees with an extra file of 255-4097 statements lacking references. Oracle: (1) snapshot of the whole sandbox (project, TMPDIR, cwd, outside) identical incl. mtime and inode; (2) the libc-level trace contains no mutating call on any path; (3) for a 4 % sample the same run under strace -f shows no mutating file system call either (validates the interposer's view). Non-trivial = distinct case with a missing reference, a non-default configuration point, a broken configuration or a fault plan".to_string(),
         vec!["the interposer sees libc-level calls of the dynamically linked build; a raw syscall() would bypass it (std and async-std use the libc wrappers)"],
     )
 }
